@@ -19,6 +19,8 @@ import EasyMl.Lemmas.ViewWrite
 import EasyMl.Lemmas.ViewLayout
 import EasyMl.Lemmas.ViewAccessors
 import EasyMl.Lemmas.ViewMatrixBridge
+import EasyMl.Lemmas.ViewWriteMany
+import EasyMl.Lemmas.ViewLawsLayout
 
 namespace EasyMl.C02
 open EasyMl EasyMl.Spec EasyMl.View
@@ -125,6 +127,25 @@ theorem view_write_frame (v : View ν α) (h : v.WF) (hn : v.leafIds.Nodup) (idx
         intro he
         exact hne ((View.resolves v h).2 hn idx' idx hin' hin (by rw [hc', hc, he]))
       simp [View.read, hss.2.1, hgc', lookup_setCell v hn c x hm hlt, hcc]
+
+/-- **Any sequence of writes.**  A loop that writes through the view — `iter_reference_mut`,
+    `map_mut`, `map_mut_with_index`, a hand-written loop over `get_reference_mut`, complete or cut
+    short (a closure that panics after `k` elements has performed the first `k` writes) — never
+    panics and leaves a view that is *well formed again* with the same leaves (ids), the same
+    shape and the same index mapping, so every theorem of this file applies to it again; reading
+    it at any in-bounds index gives the value of the last write addressed to that index, and what
+    the view held before at every index no write addressed.  Writes at absent indexes change
+    nothing. -/
+theorem view_write_many_frame (v : View ν α) (h : v.WF) (hn : v.leafIds.Nodup)
+    (ws : List (List Nat × α))
+    (hws : ∀ w ∈ ws, w.1.length = v.shape.length ∧ ∀ i ∈ w.1, i ≤ usizeMax) :
+    ∃ v', v.writeMany ws = .ok v' ∧ v'.WF ∧ v'.leafIds = v.leafIds ∧ v'.shape = v.shape ∧
+      (∀ i, v'.get i = v.get i) ∧
+      ∀ idx, inBounds (lens v.shape) idx = true →
+        v'.read idx = match View.lastWrite ws idx with
+          | some x => .ok (some x)
+          | none => v.read idx :=
+  View.writeMany_spec ws v h hn hws
 
 /-- **Linear layouts.**  Whenever a view claims `DataLayout::Linear(order)`:
     `order` is a reordering of the view's dimension names, so `TensorAccess::from_memory_order`
@@ -256,6 +277,48 @@ theorem matrix_stack_agrees_with_matrix_model (s : View ν α) (hs2 : s.shape.le
       ∃ T, mviewStack Fallible.Arith.fixed s enc ops r c = .ok (.ok T) ∧ T.shape = v.shape ∧
         ∀ i j, T.get [i, j] = omap enc (v.get [i, j])) :=
   matrix_stack_bridge s hs2 enc ops r c
+
+/-- **Relations between adaptors.**  (`SameView a b`: `a` and `b` have the same `view_shape` and
+    designate the same cell — or none — at every index tuple.)
+    * arguments that change nothing: a `TensorRange` over every dimension in full, a `TensorMask`
+      whose masks are all empty (wherever they start), a `TensorReverse` of no dimension, a
+      `TensorRename` to the names the view has — each cannot be told apart from its source;
+    * reversing the same dimensions twice gives the source back;
+    * a `TensorRange` of a `TensorRange` is the one range with the starts added;
+    * `TensorTranspose::from(s, names)` cannot be told apart from
+      `TensorRename::from(TensorAccess::from(s, names), <the names of s>)`, *and claims the same
+      data layout*: `map_linear_data_layout_to_transposed` agrees with the composition of
+      `TensorAccess::data_layout` and `TensorRename::data_layout`, an independent route to the
+      same list of names (the inverse permutation would not);
+    * selecting source `k` along the dimension a `TensorStack` added gives source `k` back. -/
+theorem adaptor_laws (s : View ν α) :
+    SameView (View.range s (s.shape.map fun d => ⟨0, d.2⟩)) s ∧
+    (∀ ms : List IndexRange, ms.length = s.shape.length → (∀ m ∈ ms, m.length = 0) →
+      SameView (View.mask s ms) s) ∧
+    SameView (View.reverse s (List.replicate s.shape.length false)) s ∧
+    SameView (View.rename s (namesOf s.shape)) s ∧
+    (∀ r : List Bool, r.length = s.shape.length → SameView (View.reverse (View.reverse s r) r) s) ∧
+    (∀ r1 r2 : List IndexRange, r1.length = r2.length →
+      SameView (View.range (View.range s r1) r2)
+        (View.range s (List.zipWith (fun a b => ⟨a.start + b.start, b.length⟩) r1 r2))) ∧
+    (∀ m : DimensionMappings, (View.transpose s m).WF →
+      SameView (View.transpose s m) (View.rename (View.access s m) (namesOf s.shape)) ∧
+      (View.transpose s m).layout = (View.rename (View.access s m) (namesOf s.shape)).layout) ∧
+    (∀ (ss : List (View ν α)) (along : Nat × ν) (k : Nat), ss[k]? = some s →
+      (∀ sh ∈ shapes ss, sh = (shapes ss).headD []) → along.1 ≤ ((shapes ss).headD []).length →
+      SameView (View.index (View.stack ss along)
+        (providedAt (((shapes ss).headD []).length + 1) along.1 k)) s) :=
+  ⟨range_full s, mask_nothing s, reverse_none s, rename_own s, reverse_reverse s, range_range s,
+    fun m hw => ⟨transpose_eq_rename_access s m (by
+        simp only [View.WF] at hw; exact mapShapeToRequested_length hw.2),
+      transpose_layout_eq_rename_access s m hw⟩,
+    fun ss along k hk hsame ha => index_stack ss along k s hk hsame ha⟩
+
+/-- … and two well-formed views related by `SameView` answer alike through the checked getters
+    (hence — `view_unchecked_eq_checked` — through the unchecked ones on in-bounds indexes) -/
+theorem laws_carry_to_getters (a b : View ν α) (ha : a.WF) (hb : b.WF) (h : SameView a b)
+    (idx : List Nat) (hl : idx.length = a.shape.length) (hbd : ∀ i ∈ idx, i ≤ usizeMax) :
+    a.get idx = b.get idx := sameView_get ha hb h idx hl hbd
 
 /-- **The constructors establish the invariant.**  Every validation of the model
     (`Tensor::from`, `TensorRefMatrix::with_names` over a `Matrix` and over `MatrixRefTensor` of a tensor view,
